@@ -678,7 +678,8 @@ def batch_call_sequences(ctx):
             bp = pytarget.generate(expr)
         except Exception:   # noqa: BLE001  (unsupported programs are judged by the other batches)
             continue
-        names = sorted(bp.expected_arguments)
+        # the USER's inputs: what the entry point expects minus what is pre-bound (wrapped data)
+        names = sorted(set(bp.expected_arguments) - set(bp.bound_arguments))
         if not names:
             continue
         bound_before = {k: np.array(v, copy=True) for k, v in bp.bound_arguments.items()}
